@@ -32,6 +32,7 @@ fn main() {
         "json-grammar" => jsonc::grammar(rest),
         "json-replay" => big_stack(move || jsonc::replay(&rest2)),
         "json-emit" => big_stack(move || jsonc::emit(&rest2)),
+        "unicode-names" => c01::unicode_names(rest),
         "c01-replay" => big_stack(move || c01::replay(&rest2)),
         "stack-replay" => stack::replay(rest),
         "stack-emit" => stack::emit(rest),
